@@ -79,7 +79,7 @@ class C19(PureCheck):
     warm_every = 3
     rule = ("pool of FmtStr values from Layouts(2,2) over {plain, red, bold+on_blue, red+bold=False} (same text/different "
             "formatting, same display/different run boundaries, empty runs, explicit False) plus every plain str of the pool's "
-            "texts and plain strs carrying escape sequences (the value's own terminal string and 6 other spellings of it), values derived from an already rendered styled value by switching the style off, and pieces cut out of an already rendered value (texts spelled like a fragment of their own escape sequence included); all ordered pairs (quick: a sampled pool of 150 -> all pairs) with ==, !=, reversed ==, hash, set and dict "
+            "texts and plain strs carrying escape sequences (the value's own terminal string and 6 other spellings of it), values derived from an already rendered styled value by switching the style off, and pieces cut out of an already rendered value (texts spelled like a fragment of their own escape sequence included); values whose terminal string has about 1024 / 1100 / 2500 characters against the equal str and near misses; all ordered pairs (quick: a sampled pool of 150 -> all pairs) with ==, !=, reversed ==, hash, set and dict "
             "membership recorded together with both terminal strings; repr round trip (eval in a namespace holding only the "
             "fmtfuncs names) for every layout with >=1 run, texts with quotes/escapes and run boundaries right before a combining / zero-width character. distinct_nontrivial = distinct pairs "
             "whose texts are equal but run lists differ, or repr cases with >=1 formatted run")
@@ -136,6 +136,16 @@ class C19(PureCheck):
                     for other in ({"k": "f", "v": tgt}, {"k": "r", "v": tgt, "variant": 0}, c):
                         yield {"op": "eq", "x": c, "y": other}
                         yield {"op": "eq", "x": other, "y": c}
+        # values whose terminal string is long (around and beyond 1024 rendered characters) against the equal plain str
+        # and against one that differs only in the middle / at the very end
+        for n in (1013, 1014, 1015, 1100, 2500):
+            for l in ([[[120] * n, [2, 0, 0, 0, 0, 0, 0, 0]]], [[[97] * (n // 2), [0, 5, 2, 0, 0, 0, 0, 0]], [[98] * (n - n // 2), [0] * 8]]):
+                x = {"k": "f", "v": l}
+                mid = [[list(t), list(a)] for t, a in l]
+                mid[0][0][len(mid[0][0]) // 2 + 3] = 113
+                for y in ({"k": "r", "v": l, "variant": 0}, {"k": "r", "v": l, "variant": 1}, {"k": "f", "v": mid}, {"k": "r", "v": mid, "variant": 0}, x):
+                    yield {"op": "eq", "x": x, "y": y}
+                    yield {"op": "eq", "x": y, "y": x}
         # values of different concrete classes (an application's subclass against the base class and against a str)
         for l in (fpool[:40] if tier == "quick" else fpool[:200]):
             for other in ({"k": "f", "v": l}, {"k": "r", "v": l, "variant": 0}, {"k": "f", "v": l[::-1]}):
